@@ -47,6 +47,28 @@ IDIOMS = tuple(f"{x}_{k}" for x in ("flag", "mailbox") for k in ("chold_a", "cho
      "with_w1", "with_w2", "with_f1", "with_f2", "with_n1", "with_n2", "with_a1")
 LOOP_IDIOMS = ("with_w1", "with_w2", "with_n1", "with_n2", "with_a1")   # discard2 = loop condition ("busy")
 DATA_W = 2
+# Mailbox with a std.Record payload whose two members have the SAME type, sent in every constructor form;
+# the consumer re-assembles the payload member by member
+REC_FORMS = {"pos": "Pk(self.data[0], self.data[1])", "kw": "Pk(a=self.data[0], b=self.data[1])",
+             "kwrev": "Pk(b=self.data[1], a=self.data[0])", "mix": "Pk(self.data[0], b=self.data[1])"}
+REC_KINDS = tuple(f"mailbox_rec:{f}" for f in REC_FORMS) + ("mailbox_rec:kwrev_coro", "mailbox_rec:mix_coro")
+# two objects with delays whose producer ends share one context and whose consumer ends share another one;
+# object 0 has (tx, rx), object 1 has (rx, tx); each has its own requests and its own monitor
+PAIR_KINDS = ("pair_flag_flag", "pair_mailbox_flag", "pair_mailbox_mailbox")
+QUICK_PAIR_DELAYS = [(1, 1), (1, 2), (0, 1), (3, 1)]
+QUICK_REC_DELAYS = [(0, 0), (1, 1), (2, 1)]
+
+
+def is_pair(cfg):
+    return cfg[0] in PAIR_KINDS
+
+
+def pair_members(cfg):
+    """('flag'|'mailbox', tx, rx) for object 0 and object 1"""
+    _, a, b = cfg[0].split("_")
+    return (a, cfg[1], cfg[2]), (b, cfg[2], cfg[1])
+
+
 QUICK_IDIOM_DELAYS = [(0, 0), (1, 1), (0, 1), (1, 0), (1, 2), (2, 1), (3, 0), (0, 3)]
 # delay lines of >= 2 stages (delay >= 3) in each direction and through the `delay=` shorthand (tx == rx)
 QUICK_LONG_DELAYS = [(3, 0), (0, 3), (3, 3), (4, 4), (3, 1), (1, 3)]
@@ -90,6 +112,16 @@ def configs(thorough):
         if not thorough:
             for tx, rx in QUICK_LONG_DELAYS:
                 out.append((kind, tx, rx, 2))
+    for kind in REC_KINDS:
+        for tx in range(dmax + 1):
+            for rx in range(dmax + 1):
+                if thorough or (tx, rx) in QUICK_REC_DELAYS:
+                    out.append((kind, tx, rx, 2))
+    for kind in PAIR_KINDS:
+        for tx in range(dmax + 1):
+            for rx in range(dmax + 1):
+                if (tx or rx) and (thorough and max(tx, rx) <= 3 or (tx, rx) in QUICK_PAIR_DELAYS):
+                    out.append((kind, tx, rx, 2))
     for kind in IDIOMS:
         for tx in range(dmax + 1):
             for rx in range(dmax + 1):
@@ -109,6 +141,60 @@ def is_mailbox(cfg):
 
 def is_coro(cfg):
     return cfg[0].endswith(("coro", "with")) or is_idiom(cfg)
+
+
+def render_pair(cfg):
+    ports = "    clk = Port.input(Bit)\n"
+    decl = ""
+    p = ""
+    c = ""
+    for i, (what, tx, rx) in enumerate(pair_members(cfg)):
+        mb = what == "mailbox"
+        ports += f"""    send_req{i} = Port.input(Bit)
+    recv_rdy{i} = Port.input(Bit)
+    p_clear{i} = Port.output(Bit, default=False)
+    p_set{i} = Port.output(Bit, default=False)
+    issued{i} = Port.output(Bit, default=False)
+    c_set{i} = Port.output(Bit, default=False)
+    c_clear{i} = Port.output(Bit, default=False)
+    consumed{i} = Port.output(Bit, default=False)
+"""
+        if mb:
+            ports += f"""    data{i} = Port.input(Bit)
+    sent_data{i} = Port.output(Bit, default=False)
+    got_data{i} = Port.output(Bit, default=False)
+"""
+        obj = f"std.Mailbox[Bit]({_kw(tx, rx)})" if mb else f"std.SyncFlag({_kw(tx, rx)})"
+        decl += f"        x{i} = {obj}\n"
+        send = f"x{i}.send(self.data{i})\n                self.sent_data{i} <<= self.data{i}" if mb else f"x{i}.set()"
+        take = f"self.got_data{i} <<= x{i}.data()\n                x{i}.clear()" if mb else f"x{i}.clear()"
+        p += f"""            self.issued{i} <<= False
+            self.p_clear{i} <<= x{i}.is_clear()
+            self.p_set{i} <<= x{i}.is_set()
+            if self.send_req{i} and x{i}.is_clear():
+                {send}
+                self.issued{i} <<= True
+"""
+        c += f"""            self.consumed{i} <<= False
+            self.c_set{i} <<= x{i}.is_set()
+            self.c_clear{i} <<= x{i}.is_clear()
+            if self.recv_rdy{i} and x{i}.is_set():
+                {take}
+                self.consumed{i} <<= True
+"""
+    return f"""{HEADER}
+
+class T(cohdl.Entity):
+{ports}
+    def architecture(self):
+        clk = std.Clock(self.clk)
+{decl}
+        @std.sequential(clk)
+        def producer():
+{p}
+        @std.sequential(clk)
+        def consumer():
+{c}"""
 
 
 def _kw(tx, rx):
@@ -353,6 +439,24 @@ class T(cohdl.Entity):
 def render(cfg):
     if is_idiom(cfg):
         return render_idiom(cfg)
+    if is_pair(cfg):
+        return render_pair(cfg)
+    kind, tx, rx, ctxs = cfg
+    mb = is_mailbox(cfg)
+    rec = kind.startswith("mailbox_rec:")
+    if rec:
+        src = _render_plain(cfg)
+        form = kind.split(":")[1].replace("_coro", "")
+        src = src.replace(f"std.Mailbox[BitVector[{DATA_W}]]", "std.Mailbox[Pk]")
+        src = src.replace("x.send(self.data)", f"x.send({REC_FORMS[form]})")
+        src = src.replace("self.got_data <<= x.data()", "r = x.data()\n                self.got_data <<= r.b @ r.a")
+        src = src.replace("self.got_data <<= await x.receive()", "r = await x.receive()\n            self.got_data <<= r.b @ r.a")
+        src = src.replace("\n\nclass T(cohdl.Entity):", "\n\nclass Pk(std.Record):\n    a: Bit\n    b: Bit\n\n\nclass T(cohdl.Entity):")
+        return "from __future__ import annotations\n" + src
+    return _render_plain(cfg)
+
+
+def _render_plain(cfg):
     kind, tx, rx, ctxs = cfg
     mb = is_mailbox(cfg)
     obj = f"std.Mailbox[BitVector[{DATA_W}]]({_kw(tx, rx)})" if mb else f"std.SyncFlag({_kw(tx, rx)})"
